@@ -79,29 +79,50 @@ Definition b_active_rev_kept (U : univ) (a : st) (x : op) (b : st) : bool :=
    block that closes epoch e+n, and is pruned by the EndBlock of that block ---- *)
 Record oblig := mkOb { ob_c : Z; ob_o : Z; ob_deadline : Z }.
 
-(* ghost: (c, o) such that address c has been observed in the stored validator set resolving to operator o and is
-   still o's current key ("has been part of the active validator set") *)
-Definition ever_active (act : list (Z * Z)) (c o : Z) : bool :=
-  existsb (fun p => (fst p =? c) && (snd p =? o)) act.
-
-Definition update_active (U : univ) (act : list (Z * Z)) (b : st) : list (Z * Z) :=
-  filter (fun p => oz_eqb (k_op b (snd p)) (Some (fst p)))
-         (act ++ flat_map (fun c => if vs b c then match k_rev b c with Some o => [(c, o)] | None => [] end else []) (u_keys U)).
-
-Definition new_obligs (U : univ) (act : list (Z * Z)) (a : st) (x : op) (r : res) : list oblig :=
+(* (repaired code) EVERY key that is replaced by the first replacement of an epoch, and the key of EVERY operator that
+   opts out, must stay resolvable for the unbonding period — whether or not it is in the stored validator set right now
+   (it may have been until the last epoch end: operator deselected by vote power, validator limit or jailing) *)
+Definition new_obligs (U : univ) (a : st) (x : op) (r : res) : list oblig :=
   if negb (res_eqb r ROk) then [] else
   match x with
   | SetKey o k | SetKeyK o k | OptInKey o k =>
       match k_op a o with
-      | Some c => if (vs a c || ever_active act c o) && negb (c =? k) then [mkOb c o (cur a + unb a)] else []
+      | Some c => if negb (c =? k) && negb (is_some (k_prev a o)) then [mkOb c o (cur a + unb a)] else []
       | None => []
       end
   | OptOut o =>
       match k_op a o with
-      | Some c => if vs a c || ever_active act c o then [mkOb c o (cur a + unb a)] else []
+      | Some c => [mkOb c o (cur a + unb a)]
       | None => []
       end
   | _ => []
+  end.
+
+(* Jail / Unjail by consensus address set the flag of exactly the operator the registry resolves the address to (if
+   it has an opted-info record) and touch nothing else; slashing by consensus address reaches exactly that operator *)
+Definition b_jail_slash (U : univ) (a : st) (x : op) (slashed : list Z) (b : st) : bool :=
+  let flags_as (c : Z) (v : bool) :=
+    forallb (fun o => Bool.eqb (jailed b o)
+                        (if oz_eqb (k_rev a c) (Some o) && info a o then v else jailed a o)) (u_ops U) && keys_same U a b in
+  match x with
+  | Jail c => flags_as c true
+  | Unjail c => flags_as c false
+  | SlashBy c => lz_eqb slashed (match k_rev a c with Some o => [o] | None => [] end) && keys_same U a b &&
+                 forallb (fun o => Bool.eqb (jailed b o) (jailed a o)) (u_ops U)
+  | OptIn _ | OptInKey _ _ => match slashed with [] => true | _ => false end
+  | _ => forallb (fun o => Bool.eqb (jailed b o) (jailed a o)) (u_ops U) && match slashed with [] => true | _ => false end
+  end.
+
+(* jailing and the selection: after the EndBlock that closes an epoch no address of the stored validator set belongs
+   to a jailed or opted-out operator, whatever the selection by vote power was; a jailed operator cannot leave *)
+Definition b_jail_selection (U : univ) (a : st) (x : op) (r : res) (b : st) : bool :=
+  match x with
+  | EndBlock _ =>
+      negb (ep_end a) ||
+      forallb (fun c => negb (vs b c) ||
+                        match k_rev b c with Some o => opted b o && negb (jailed b o) | None => false end) (u_keys U)
+  | OptOut o | SetKey o _ => negb (jailed a o) || (negb (res_eqb r ROk) && keys_same U a b)
+  | _ => true
   end.
 
 (* obligations checked on the state after the step; returns the obligations that remain *)
@@ -113,14 +134,15 @@ Definition check_obligs (x : op) (b : st) (l : list oblig) : option (list oblig)
                         else oz_eqb (k_rev b (ob_c ob)) (Some (ob_o ob))) l
   then Some (filter (fun ob => negb (due ob)) l) else None.
 
-Fixpoint monitor_steps (U : univ) (a : st) (act : list (Z * Z)) (obl : list oblig) (l : list stepobs) (i : nat) : option nat :=
+Fixpoint monitor_steps (U : univ) (a : st) (obl : list oblig) (l : list stepobs) (i : nat) : option nat :=
   match l with
   | [] => None
   | x :: rest =>
       let b := abs (so_obs x) in
-      if c07_state_ok U b && b_no_set_while_removing U a (so_op x) (so_res x) b && b_active_rev_kept U a (so_op x) b
-      then match check_obligs (so_op x) b (obl ++ new_obligs U act a (so_op x) (so_res x)) with
-           | Some obl' => monitor_steps U b (update_active U act b) obl' rest (S i)
+      if c07_state_ok U b && b_no_set_while_removing U a (so_op x) (so_res x) b && b_active_rev_kept U a (so_op x) b &&
+         b_jail_slash U a (so_op x) (o_slashed (so_obs x)) b && b_jail_selection U a (so_op x) (so_res x) b
+      then match check_obligs (so_op x) b (obl ++ new_obligs U a (so_op x) (so_res x)) with
+           | Some obl' => monitor_steps U b obl' rest (S i)
            | None => Some i
            end
       else Some i
@@ -128,4 +150,4 @@ Fixpoint monitor_steps (U : univ) (a : st) (act : list (Z * Z)) (obl : list obli
 
 Definition monitor_case (c : case) : option nat :=
   if negb (c07_state_ok (c_univ c) (abs (c_init c))) then Some 0%nat
-  else monitor_steps (c_univ c) (abs (c_init c)) (update_active (c_univ c) [] (abs (c_init c))) [] (c_steps c) 1.
+  else monitor_steps (c_univ c) (abs (c_init c)) [] (c_steps c) 1.
